@@ -48,6 +48,10 @@ MixedPool == {TCls("int"), TCls(CB), TNone, TList(TCls("int")), TList(TAny), TDi
               TTypeOf(TCls(CA)), TSet(TAny), TSet(TCls("str"))}
 BigUnions(P, lo, hi) == UNION {KUnions(P, n) : n \in lo..hi}
 
+CtxUser == {TCls("zutil.A"), TCls("zutil.zutil"), TCls("zutil.Outer.Inner"), TCls("zpkg.zutil.B"), TCls("zpkg.zutil.A"),
+            TCls("zfoo.Baz"), TCls("barzfoo.Qux"), TCls("_io.StringIO")}
+CtxAtoms == CtxUser \cup {TCls("int"), TNone}
+
 TD1(fs) == TTD(fs)
 TDPool == {TTD({TReq("a", TCls("int"))}), TTD({TReq("a", TCls("str"))}),
            TTD({TReq("a", TCls("int")), TOpt("b", TCls("str"))}),
